@@ -129,7 +129,7 @@ fn extra_sets(tier: Tier) -> Vec<(String, Vec<(String, Vec<u8>)>)> {
     }
     for l in 0..=names {
         let n1: String = "abcdefghij".chars().cycle().take(l).collect();
-        let n2: String = "名前ｶﾅ".chars().cycle().take(l / 2 + 1).collect();
+        let n2: String = (if l % 2 == 1 { "z" } else { "" }).to_string() + &"名前".chars().cycle().take(l / 2).collect::<String>() + "ｶ"; // two-byte lead bytes at odd AND even offsets
         v.push((format!("names of {} bytes", l), vec![(n1, body(0, 3)), (n2, body(1, 40)), ("z".to_string(), body(2, 0))]));
     }
     v
